@@ -501,3 +501,39 @@ fn gen_c05(rng: &mut Rng, ctx: &mut Ctx, rep: &mut Report, emit: Emit) {
     }
     rep.exhaustive_parts.push("every single-bit flip inside every block of every generated bundle".into());
 }
+
+/// The same item tree with some of its definite-length byte / text strings written as indefinite-length
+/// strings of 1..3 chunks (text split at character boundaries): what another conformant encoder may send.
+pub fn chunk_strings(rng: &mut Rng, b: &[u8]) -> Vec<u8> {
+    fn head(major: u8, n: usize, out: &mut Vec<u8>) {
+        let m = major << 5;
+        if n < 24 { out.push(m | n as u8) } else if n < 256 { out.push(m | 24); out.push(n as u8) }
+        else if n < 65_536 { out.push(m | 25); out.extend_from_slice(&(n as u16).to_be_bytes()) }
+        else { out.push(m | 26); out.extend_from_slice(&(n as u32).to_be_bytes()) }
+    }
+    fn go(rng: &mut Rng, b: &[u8], i: usize, out: &mut Vec<u8>) -> Option<usize> {
+        let end = cborx::item_end(b, i, 0)?;
+        let ib = b[i];
+        let (major, ai) = (ib >> 5, ib & 31);
+        let hl = match ai { 0..=23 => 1, 24 => 2, 25 => 3, 26 => 5, 27 => 9, _ => 1 };
+        match major {
+            2 | 3 if ai != 31 && rng.chance(1, 2) => {
+                let body = &b[i + hl..end];
+                out.push((major << 5) | 31);
+                let mut cuts: Vec<usize> = (0..rng.below(3)).map(|_| rng.below(body.len() as u64 + 1) as usize).collect();
+                cuts.push(0); cuts.push(body.len()); cuts.sort(); cuts.dedup();
+                if major == 3 { let s = std::str::from_utf8(body).ok()?; cuts.retain(|c| s.is_char_boundary(*c)); }
+                for w in cuts.windows(2) { head(major, w[1] - w[0], out); out.extend_from_slice(&body[w[0]..w[1]]); }
+                out.push(0xff);
+            }
+            4 => {
+                if ai == 31 { out.push(ib); let mut p = i + 1; while b[p] != 0xff { p = go(rng, b, p, out)?; } out.push(0xff); }
+                else { out.extend_from_slice(&b[i..i + hl]); let mut p = i + hl; while p < end { p = go(rng, b, p, out)?; } }
+            }
+            _ => out.extend_from_slice(&b[i..end]),
+        }
+        Some(end)
+    }
+    let mut out = Vec::with_capacity(b.len() + 16);
+    match go(rng, b, 0, &mut out) { Some(e) if e == b.len() => out, _ => b.to_vec() }
+}
